@@ -61,6 +61,33 @@ var decided = map[string][]string{
 		"termination where a decreases clause is listed (getNext, getPrior, TrimCollinear64 loops, PointInPolygon inner loops, ReversePath, minkowskiInternal, reset)",
 		"documented precision panic happens exactly when the precision is out of range",
 	},
+	"C02": {
+		"buildPath: degenerate rings rejected, no two consecutive emitted vertices equal, closed 3-vertex result rejected iff very small triangle",
+		"ptsReallyClose, isVerySmallTriangle, isValidClosedPath exact",
+		"buildPaths: records routed by isOpen, records without points skipped",
+	},
+	"C04": {
+		"AddChild: fresh child with parent == receiver and polygon == argument, appended exactly once, siblings untouched",
+		"Level / IsHole for depth 0, 1, 2 and the per-iteration step; Clear; Count",
+		"recursiveCheckOwners never re-attaches a record that already has a node",
+	},
+	"C05": {
+		"StripDuplicates functional contract; NewGroup / AddPaths / NewClipperOffset wiring",
+		"|delta| < 0.5 copies the (stripped) input paths; effective delta sign by orientation; paired fill rule and reverse flag for the final union",
+		"getUnitNormal, buildNormals, getPerpendic, doMiter, doBevel, intersectPoint, reflectPoint geometry (real model)",
+	},
+	"C10": {
+		"StripDuplicates keeps both end points of an open path; buildNormals; doBevel end-cap formula; open groups use |delta| and are never reversed",
+	},
+	"C06": {
+		"getLocation total specification",
+		"getSegmentIntersection: touching cases lie on the rectangle edge; no result when both end points are strictly on one side",
+		"fast paths of RectClip64.Execute: inside => unchanged, beside => nothing, empty rectangle => nothing",
+		"NewRectClip64 wiring",
+	},
+	"C11": {
+		"getLocation / getSegmentIntersection as in C06; NewRectClip64 passes the line path extractor; RectClipLinesPaths64 empty cases",
+	},
 	"C12": {
 		"every public Execute* entry point re-establishes the idle state; constructors start idle; reset() re-initialises the per-run scratch fields",
 		"succeeded, fillRule, clipType, currentBotY, currentLocMin, sel, usingPolyTree are written before read in every entry point's call tree",
@@ -90,6 +117,12 @@ var undecided = map[string][]string{
 	"C08": {"the NonZero union of the quads (C01) and commutativity of the resulting region"},
 	"C13": {"region-level translation/scaling invariance of whole operations", "advertised range 2^61 for CrossProduct, dotProduct64, getSegmentIntersectPt (known finding F13)"},
 	"C03": {"termination and nil-safety of the sweep's list walks, Execute's success flag, rectangle-clip state machine, offset join constructors (not under contract)"},
+	"C02": {"winding 0/1, orientation signs, >= 3 vertices and first != last (need cleanCollinear's ring postcondition and the sweep)", "reverse option applied consistently (call-site argument of buildPath)"},
+	"C04": {"owner correctness, containment within the parent, IsHole <=> negative orientation, same polygons as the flat result"},
+	"C05": {"both containment clauses, Round's arc tolerance, the negative-delta mirror statement, doSquare / doRound geometry, offsetPoint's case analysis"},
+	"C10": {"end caps (known finding F12), containment clauses, Joined loops, single-point circle"},
+	"C06": {"winding-number clause and 'zero outside' (known finding F30; bounded stand-in only)", "executeInternal state machine, checkEdges / tidyEdgePair post-pass (not under contract)"},
+	"C11": {"vertices on the input line, two-point segments kept, never closed up (known finding F6)", "coverage and order of the output"},
 	"C12": {"equality of results when the same paths are added in another order or split over several AddPaths calls (depends on the sweep's handling of equal-Y local minima)"},
 	"C17": {"all region-equality clauses: permutation of paths, start-vertex rotation, duplicated vertices, reversal, subject/clip exchange, the 8 lattice symmetries (relational properties of the sweep)"},
 	"C18": {"interleavings are not explored: the argument is the frame condition, under the assumption that the Go runtime and imported packages keep no racy shared state"},
